@@ -12,6 +12,18 @@
 //   Sub-interpreters are keyed in `Interpreter::sub_interpreters` by `hash_str(fence name)`; the names are
 //   recovered from the parsed tree (BlockConfig.namespace_str); an id that matches no fence is printed as "#<id>".
 //   Entries are sorted by printed name.
+//   With "blocks": true in the request a sixth field is appended to every `(doc ...)` (the judge of the document
+//   algebra alone reads exactly five fields, so the field is opt-in): the block structure of the parsed tree,
+//     (blocks b...)   every section element in document order, sections flattened
+//       b ::= (fm "<namespace_str>" <named 0|1> <disabled 0|1> <hidden 0|1> (items k...))   FencedMechCode
+//           | (cb "<body text>")                                                          CodeBlock (plain fence)
+//           | (mc (items k...))                                                           top-level MechCode
+//           | (el "<Variant>")            every other element; the document title is (el "Title"), the underlined
+//                                         title of a section (el "SectionTitle")
+//           | (float b) | (prompt b)
+//       k ::= s | e | c | f | m | x       Statement, Expression, Comment, FunctionDefine, Fsm*, MechCode::Error;
+//                                         a second letter c = a trailing comment is attached
+//     (blocks) after a parse error.
 use crate::canon::*;
 use mech_core::*;
 use mech_interpreter::*;
@@ -43,13 +55,58 @@ fn fence_names(tree: &Program) -> HashMap<u64, String> {
   names
 }
 
-fn one_doc(src: &str) -> String {
+fn code_items(code: &Vec<(MechCode, Option<Comment>)>) -> String {
+  let ks: Vec<String> = code.iter().map(|(c, cm)| {
+    let k = match c {
+      MechCode::Statement(_) => "s",
+      MechCode::Expression(_) => "e",
+      MechCode::Comment(_) => "c",
+      MechCode::FunctionDefine(_) => "f",
+      MechCode::Error(_, _) => "x",
+      _ => "m",
+    };
+    format!("{}{}", k, if cm.is_some() { "c" } else { "" })
+  }).collect();
+  format!("(items {})", ks.join(" "))
+}
+
+fn block_el(el: &SectionElement) -> String {
+  match el {
+    SectionElement::FencedMechCode(b) => format!("(fm {} {} {} {} {})", qstr(&b.config.namespace_str),
+      if b.config.namespace != 0 { 1 } else { 0 }, if b.config.disabled { 1 } else { 0 },
+      if b.config.hidden { 1 } else { 0 }, code_items(&b.code)),
+    SectionElement::CodeBlock(t) => format!("(cb {})", qstr(&t.chars.iter().collect::<String>())),
+    SectionElement::MechCode(code) => format!("(mc {})", code_items(code)),
+    SectionElement::Float((inner, _)) => format!("(float {})", block_el(inner)),
+    SectionElement::Prompt(inner) => format!("(prompt {})", block_el(inner)),
+    other => {
+      let d = format!("{:?}", other);
+      let name: String = d.chars().take_while(|c| c.is_alphanumeric()).collect();
+      format!("(el {})", qstr(&name))
+    }
+  }
+}
+
+// `(blocks b...)`: every section element of the parsed tree in document order (sections flattened; the document title
+// and the underlined title of a section are printed as (el "Title") / (el "SectionTitle")).
+fn blocks(tree: &Program) -> String {
+  let mut out: Vec<String> = vec![];
+  if tree.title.is_some() { out.push("(el \"Title\")".to_string()); }
+  for sec in &tree.body.sections {
+    if sec.subtitle.is_some() { out.push("(el \"SectionTitle\")".to_string()); }
+    for el in &sec.elements { out.push(block_el(el)); }
+  }
+  format!("(blocks {})", out.join(" "))
+}
+
+fn one_doc(src: &str, want_blocks: bool) -> String {
   let mut intrp = Interpreter::new(0);
   let tree = match catch_unwind(|| parser::parse(src)) {
     Ok(Ok(t)) => t,
-    Ok(Err(_)) => return format!("(doc {} (perr) {} (subs))", qstr(src), crate::dump_symbols(&intrp)),
-    Err(_) => return format!("(doc {} (panic parse) {} (subs))", qstr(src), crate::dump_symbols(&intrp)),
+    Ok(Err(_)) => return format!("(doc {} (perr) {} (subs){})", qstr(src), crate::dump_symbols(&intrp), if want_blocks { " (blocks)" } else { "" }),
+    Err(_) => return format!("(doc {} (panic parse) {} (subs){})", qstr(src), crate::dump_symbols(&intrp), if want_blocks { " (blocks)" } else { "" }),
   };
+  let blk = if want_blocks { format!(" {}", catch_unwind(AssertUnwindSafe(|| blocks(&tree))).unwrap_or("(blocks panic)".to_string())) } else { String::new() };
   let names = fence_names(&tree);
   let r = match catch_unwind(AssertUnwindSafe(|| intrp.interpret(&tree))) {
     Ok(Ok(_)) => "(val)".to_string(),
@@ -67,13 +124,15 @@ fn one_doc(src: &str) -> String {
   }
   subs.sort();
   let subs: Vec<String> = subs.iter().map(|(n, s)| format!("({} {})", qstr(n), s)).collect();
-  format!("(doc {} {} {} (subs {}))", qstr(src), r, main, subs.join(" "))
+  format!("(doc {} {} {} (subs {}){})", qstr(src), r, main, subs.join(" "), blk)
 }
 
 pub fn mode_doc(j: &J) -> String {
+  // opt-in (the C10 judge of the document algebra alone reads exactly five fields)
+  let wb = j.get("blocks").map(|b| b.as_bool().unwrap_or(false) || b.as_u64().unwrap_or(0) != 0).unwrap_or(false);
   if let Some(srcs) = j["srcs"].as_array() {
-    let out: Vec<String> = srcs.iter().map(|s| one_doc(s.as_str().unwrap_or(""))).collect();
+    let out: Vec<String> = srcs.iter().map(|s| one_doc(s.as_str().unwrap_or(""), wb)).collect();
     return format!("(docs {})", out.join(" "));
   }
-  one_doc(j["src"].as_str().unwrap_or(""))
+  one_doc(j["src"].as_str().unwrap_or(""), wb)
 }
